@@ -7,9 +7,9 @@ import tempfile
 
 PROPERTY = 'C15'
 THEOREMS = ['UseM.task_runs_its_own_request', 'UseM.different_request_not_shared', 'UseM.same_request_same_task',
-            'UseM.close_nodup', 'UseM.close_sound', 'UseM.close_complete', 'UseM.duplicate_names_rejected',
-            'UseM.c15_pinned_refuted']
-BUDGET = {'quick': 300, 'thorough': 6000}
+            'UseM.history_good', 'UseM.make_runs_its_own_request', 'UseM.close_nodup', 'UseM.close_sound',
+            'UseM.close_complete', 'UseM.duplicate_names_rejected', 'UseM.c15_pinned_refuted']
+BUDGET = {'quick': 1500, 'thorough': 30000}
 TIME_LIMIT = {'quick': 50, 'thorough': 600}
 RULE = ('histories (2-12 calls) of Use.from_func(...).get_task() [same-named functions, lambdas, hard/soft, positional/'
         'keyword injection, keys result/other/None, serialize], RunTaskFactory.make [user names, extra args, keywords '
